@@ -108,8 +108,10 @@ claim("C11", "proof", T1 + " (dictionaries as maps, loops over dictionaries and 
       "TreeList._import_tree_to_taxon_namespace / append / insert: the tree ends up referring to the list's namespace object and closed over it, for both import strategies "
       "and whatever **kwargs carry. Bounded (T2, deciding for the rest): every history of <= 2 (thorough 3) container operations on TreeList / CharacterMatrix / DataSet / "
       "TreeArray: label<->taxon functional and injective, nothing dropped or duplicated, sources untouched, documented refusals.",
-      "ASSUMED contracts: TaxonNamespace.require_taxon / new_taxon / get_taxon return a member (or None) and remove none (label look-ups are bounded: C10/C11 drivers); add_taxon is C10's "
-      "proved contract restated over the accession dictionary; `for nd in tree` visits the ghost list g_nodes (every node once: C15, bounded-exhaustive there); "
+      "the callee contracts of TaxonNamespace.add_taxon / new_taxon / require_taxon / get_taxon are PROVED too (contracts/C11ns.py: same ensures texts, real bodies incl. the "
+      "label look-up loops) under the representation invariant 'every listed taxon is a key of the accession map', preserved by them and by clear(); that every reachable namespace "
+      "satisfies it (remove_taxon, sort, reverse, constructors, copies are not under contract) is validated natively over every sequence of <= 3 namespace operations; "
+      "`for nd in tree` visits the ghost list g_nodes (every node once: C15, bounded-exhaustive there); "
       "list-wide closure of the other trees of a TreeList, label clauses, DataSet and TreeArray are bounded only",
       "DESIGN.md section 5 C11, section 9")
 claim("C12", "exploration", T2 + "; a small T1 part (dispatch on the AST; the deepcopy memo of a scoped copy as a dictionary held in a parameter, z3)",
